@@ -506,5 +506,6 @@ def run(ctx, rep):
     from rules import c08_trivia, c08_endif
     c08_trivia.run(ctx, rep)
     c08_trivia.run_glue(ctx, rep)
+    c08_trivia.run_lookahead(ctx, rep)
     c08_trivia.run_comment(ctx, rep)
     c08_endif.run(ctx, rep)
